@@ -29,8 +29,9 @@ import vlib
 STRACE_SET = "mount,mkdirat,mknodat,pivot_root,umount2,unlinkat,statfs,chdir,execveat,execve"
 
 
-def mc_cfg(maxlen, opts, envs):
+def mc_cfg(maxlen, opts, envs, menu="Kinds"):
     return """CONSTANTS
+  Menu <- %s
   MaxLen = %d
   ContOpts <- %s
   Envs <- %s
@@ -47,7 +48,7 @@ INVARIANTS
   MaskedRevealNothing
 ALIAS Alias
 CHECK_DEADLOCK FALSE
-""" % (maxlen, opts, envs)
+""" % (menu, maxlen, opts, envs)
 
 
 class Bg:
@@ -89,11 +90,12 @@ def counted(ctx, r):
 
 
 def gen_cfg(ctx):
-    """quick: every table of <= 1 entry in every variant (namespace runner + container x 4 option
-    sets), + 6 drawn 2-entry and 18 drawn 3-entry tables, each with the namespace runner and one
-    drawn container variant; thorough: every table of <= 1 entry in every variant, all 121 2-entry
-    tables and 300 drawn 3-entry tables, each with the namespace runner and one drawn container
-    variant.  TLC draws (Randomization, -seed)."""
+    """Menu: 16 entry kinds (11 produced by the builder helpers, 5 hand-written mount.Mount literals).
+    quick: every table of <= 1 entry in every variant (namespace runner + container x 4 option
+    sets), + 5 drawn 2-entry and 15 drawn 3-entry tables, each with the namespace runner and one
+    drawn container variant; thorough: every table of <= 1 entry in every variant, 160 of the 256
+    2-entry tables and 260 of the 4096 3-entry tables, each with the namespace runner and one drawn
+    container variant.  TLC draws (Randomization, -seed)."""
     return """CONSTANTS
   MaxLen = 3
   ContOpts <- ContOptsMain
@@ -102,7 +104,7 @@ def gen_cfg(ctx):
   NLong = %d
 INIT Init
 NEXT Next
-""" % ctx.pick((1, 6, 18), (1, 121, 300))
+""" % ctx.pick((1, 5, 15), (1, 160, 260))
 
 
 # ---------------------------------------------------------------- strace text -> events
@@ -317,13 +319,15 @@ def run_body(ctx, bg):
         if ctx.quick():
             r = counted(ctx, tlc_bg(ctx, "Mounts", cfg=mc_cfg(2, "ContOptsMain", "EnvsOne"), workers=4, timeout=900).join())
             ctx.tlc_ok("Mounts MC (tables <= 2)", r)
-            return "tables<=2 x {fork, cont x 4 option sets}: %d states" % r.distinct
+            return "full 16-kind menu, tables<=2 x {fork, cont x 4 option sets}: %d states" % r.distinct
         r = counted(ctx, tlc_bg(ctx, "Mounts", workers=4, timeout=2400).join())
         ctx.tlc_ok("Mounts MC (tables <= 3)", r)
         r2 = counted(ctx, tlc_bg(ctx, "Mounts", cfg="Mounts_MC2.cfg", workers=4, timeout=2400).join())
-        ctx.tlc_ok("Mounts MC (tables <= 2, all option sets, two environments)", r2)
-        return "tables<=3 x {fork, cont x 2 option sets}: %d states; tables<=2 x {fork, cont x 8 option sets} x 2 envs: %d states" % (
-            r.distinct, r2.distinct)
+        ctx.tlc_ok("Mounts MC (tables <= 2, full menu, two environments)", r2)
+        r1 = counted(ctx, tlc_bg(ctx, "Mounts", cfg="Mounts_MC1.cfg", workers=4, timeout=2400).join())
+        ctx.tlc_ok("Mounts MC (tables <= 1, all option sets, two environments)", r1)
+        return ("13-kind core menu, tables<=3 x {fork, cont x 2 option sets}: %d states; full 16-kind menu, tables<=2 x {fork, cont x 4} x 2 envs: %d states; "
+                "tables<=1 x {fork, cont x 8} x 2 envs: %d states") % (r.distinct, r2.distinct, r1.distinct)
     mc = Bg(design)
     bg.append(mc)
     time.sleep(0.3)
@@ -427,7 +431,8 @@ def run_body(ctx, bg):
         "the sandboxed program has no capabilities (runner/unshare and the container both drop them), so remount attempts are expected to fail with EPERM",
         "a launch that fails inside the mount block on a table the model can build is counted as a breach (the configured mounts are not provided); failures elsewhere are inconclusive",
         "container: link/mask/devnull options explored as 4 combinations (all 8 in the model); network and ipc namespaces are not unshared by the driver",
-        "thorough real runs: every table of <= 1 entry in every variant, every 2-entry table and a seeded sample of 300 of the 1331 three-entry tables with the namespace runner and one drawn container variant (all tables are model-checked)",
+        "thorough real runs: every table of <= 1 entry in every variant, 160 of the 256 two-entry and 260 of the 4096 three-entry tables (drawn by TLC per seed) with the namespace runner and one drawn container variant; model checking covers every table <= 2 over the full menu and every table <= 3 over the 13-kind core menu",
+        "'declared read-only' = the MS_RDONLY bit of the entry; hand-written mount.Mount literals (flag sets the builder helpers never produce) are part of the menu",
     ]
     ctx.cov["sandboxes_not_started"] = len(setup)
     if model:
